@@ -152,6 +152,68 @@ claim(
     "DESIGN.md 5/C14",
 )
 
+claim(
+    "C01",
+    "Parseability of libcst output for arbitrary inputs is declined. Decided: the gaps of libcst's own validation that are visible in this "
+    "source — every hand-built string-literal token is classified (constant / same-literal quote / foreign text in a fixed quote needs a guard), "
+    "filtered import-alias lists reset the tail comma, the operator slot of rebuilt comparisons receives an operator, and every constant code "
+    "template handed to parse_expression/parse_statement/NewArg/update_call_target parses.",
+    "Necessary conditions only (breaking any of them yields unparseable output for some input); 1 known finding (lazy-logging quoting).",
+    "provenance classification of leaf-token constructions + template evaluation and parsing + slot typing",
+    "DESIGN.md 5/C01",
+)
+claim(
+    "C02",
+    "Every code template a transformer emits by name is recovered (constant/template evaluator with conditional alternatives and holes), its "
+    "free root identifiers are computed with ast, and each is paired path-sensitively (assumption-pruned must-events; callers for helper "
+    "emitters) with an import scheduled for that name; import-statement rewriting is restricted to an allow-list of owners; the operator slot "
+    "of rebuilt comparisons is type-checked.",
+    "Scope-aware reasoning about clean-up passes (RemoveUnusedVariables) is not claimed; cross-method pairing is a may-analysis.",
+    "template evaluation + free-name computation + must/may event pairing of emission and import",
+    "DESIGN.md 5/C02",
+)
+claim(
+    "C07",
+    "For the 22 codemods with a semgrep rule of their own, rule (YAML, recovered statically, read into DNF alternatives of call/assignment "
+    "patterns) and edit (effect algebra read off on_result_found) are compared: per alternative the edited code contradicts the positive "
+    "pattern or guarantees a pattern-not; table-driven rewrites have disjoint trigger/product names; the libcst pipeline reports no "
+    "changeset for an empty diff.",
+    "Codemods outside the effect algebra are listed as not modelled (harden-pyyaml, lazy-logging, jwt options dict, file-selector rule, "
+    "with-item rewrite, hasattr); pattern-inside and taint sources are ignored; stdlib arity facts (ssl.SSLContext) are assumptions.",
+    "semgrep-rule reader (DNF) x edit-effect algebra: unmatchability proof per alternative",
+    "DESIGN.md 5/C07",
+)
+claim(
+    "C08",
+    "Observational equivalence is declined. Decided at the anchors the property names: operator constraints of all matchers in the "
+    "combine-calls fold, lpar/rpar carry-over of freshly built non-atomic expressions in refactoring hooks, argument-list preservation "
+    "(complete / tail / partial / dropped with dominating arity facts), and the comparison-inversion table against the truth table of the "
+    "ten comparison operators incl. single-comparison-only application.",
+    "Structural necessary conditions only; 2 known findings (fold across `and`, pinned by the existing tests).",
+    "matcher-constraint check + constructor keyword check + argument-list classification + table comparison",
+    "DESIGN.md 5/C08",
+)
+claim(
+    "C16",
+    "Docs <-> code sibling agreement: the tokens each of the 22 hardening transformers introduces by name (keyword names/values, callee "
+    "templates, imports, mapping targets) must occur in the + / context lines of the codemod's own docs ```diff block and not only in its - "
+    "lines; every rebuilt argument list is complete/tail or dominated by an arity fact (match pattern, len test, detector rule arity); the "
+    "shared argument helpers keep unmatched arguments.",
+    "Preservation of every token for arbitrary call shapes through libcst is not claimed.",
+    "template token extraction vs. documentation diff + argument-list classification with dominance facts",
+    "DESIGN.md 5/C16",
+)
+claim(
+    "C18",
+    "For the 22 rule-detected codemods: per rule alternative the rewritten code cannot be reported again (shared prover with C07); every "
+    "syntactic kind the rule can report (call/assignment/class/with-item/file) has a hook that reaches on_result_found or a result-gated "
+    "custom hook (incl. driven helper visitors); no hook rebuilds its result from the original node's children or returns the original "
+    "node when a node kind the same transformer rewrites can be nested inside.",
+    "Agreement of semgrep positions with libcst positions, and semgrep semantics in general, are not claimed.",
+    "rule reader x effect algebra + hook-kind coverage + lost-update (original-node reuse) detection with a containment table",
+    "DESIGN.md 5/C18",
+)
+
 NA_REASONS: dict[str, str] = {}
 
 
